@@ -469,7 +469,7 @@ Lemma guard_sound_consulted fs q o stamp fs' r f n :
   end.
 Proof.
   intros W Hf Hn RK H. set (K := real fs n) in *. unfold write_model, write_gen in H.
-  destruct (write_one guard fs (q_fields q) (q_x q) o (ext_same (nodes fs) (q_x q) (q_ext q)) stamp)
+  destruct (write_one guard fs (q_fields q) (q_x q) o (ext_same_at guard fs q o stamp) stamp)
     as [fs1 r1] eqn:E1.
   assert (HG : isfile_p (nodes fs) (t_path (q_x q)) && negb (w_overwrite o) = false ->
                existsb (fun f0 => guard fs f0 (q_x q)) (q_fields q) = false ->
@@ -537,7 +537,7 @@ Lemma no_overwrite_all G fs q o stamp fs' r K :
   content fs' K = content fs K.
 Proof.
   intros W M O RK H. unfold write_model, write_gen in H.
-  destruct (write_one G fs (q_fields q) (q_x q) o (ext_same (nodes fs) (q_x q) (q_ext q)) stamp)
+  destruct (write_one G fs (q_fields q) (q_x q) o (ext_same_at G fs q o stamp) stamp)
     as [fs1 r1] eqn:E1.
   pose proof (write_one_no_overwrite _ _ _ _ _ _ _ _ _ K W M O RK E1) as K1.
   pose proof (write_one_wf _ _ _ _ _ _ _ _ _ W E1) as W1.
@@ -557,7 +557,7 @@ Lemma no_overwrite C FW G fs q o stamp :
   exists e, write_gen C FW G fs q o stamp = (fs, Some e).
 Proof.
   intros M O X.
-  assert (exists e, write_one G fs (q_fields q) (q_x q) o (ext_same (nodes fs) (q_x q) (q_ext q)) stamp = (fs, Some e)) as [e E].
+  assert (exists e, write_one G fs (q_fields q) (q_x q) o (ext_same_at G fs q o stamp) stamp = (fs, Some e)) as [e E].
   { unfold write_one, write_one_t. rewrite M, O, X. simpl. destruct (w_fault o); eauto. }
   exists e. unfold write_gen. rewrite E. reflexivity.
 Qed.
@@ -570,7 +570,7 @@ Lemma refused_untouched C FW G fs q o stamp :
   write_gen C FW G fs q o stamp = (fs, Some ValueErr).
 Proof.
   intros M N1 N2 Ho Hg.
-  assert (E : write_one G fs (q_fields q) (q_x q) o (ext_same (nodes fs) (q_x q) (q_ext q)) stamp = (fs, Some ValueErr)).
+  assert (E : write_one G fs (q_fields q) (q_x q) o (ext_same_at G fs q o stamp) stamp = (fs, Some ValueErr)).
   { unfold write_one, write_one_t. rewrite M.
     destruct (w_fault o) eqn:Ef; try (exfalso; eapply N1; eauto; fail);
       try (exfalso; eapply N2; eauto; fail); rewrite Ho, Hg; reflexivity. }
@@ -580,7 +580,7 @@ Qed.
 (* fix2-2: the external file is refused, before it is touched, when one of
    the constructs themselves still needs it *)
 Lemma external_refused G fs q o stamp fs1 e ef efs :
-  write_one G fs (q_fields q) (q_x q) o (ext_same (nodes fs) (q_x q) (q_ext q)) stamp = (fs1, None) ->
+  write_one G fs (q_fields q) (q_x q) o (ext_same_at G fs q o stamp) stamp = (fs1, None) ->
   q_ext q = Some e -> q_efields q = ef :: efs ->
   existsb (fun f => G fs1 f e) (q_fields q) = true ->
   write_model G fs q o stamp = (fs1, Some ValueErr).
@@ -594,7 +594,7 @@ Lemma option_error_untouched C FW G fs q o stamp :
   exists e, write_gen C FW G fs q o stamp = (fs, Some e).
 Proof.
   intro H.
-  assert (exists e, write_one G fs (q_fields q) (q_x q) o (ext_same (nodes fs) (q_x q) (q_ext q)) stamp = (fs, Some e)) as [e E].
+  assert (exists e, write_one G fs (q_fields q) (q_x q) o (ext_same_at G fs q o stamp) stamp = (fs, Some e)) as [e E].
   { destruct H as [M|[[e Ef]|[M [e Ef]]]]; unfold write_one, write_one_t.
     - rewrite M. eauto.
     - rewrite Ef. destruct (w_mode o); eauto.
@@ -720,3 +720,12 @@ Lemma given_example :
 Proof.
   split; [repeat constructor|]. vm_compute. split; [reflexivity|discriminate].
 Qed.
+
+(* the "external == target" refusal is decided after the target has been opened: a target
+   that is a symbolic link to the external file has been replaced by a file of its own by
+   then and the call goes ahead; named directly (or through a directory link) it is refused *)
+Lemma ext_same_example :
+  snd (write_model guard ex_fs (mkQ [ex_h] [ex_ef] (tg ex_fs 12) (Some (tg ex_fs 10))) (mkW MW true FNone) 1000) = None /\
+  snd (write_model guard ex_fs (mkQ [ex_h] [ex_ef] (tg ex_fs 11) (Some (tg ex_fs 10))) (mkW MW true FNone) 1000) = Some ValueErr /\
+  snd (write_model guard ex_fs (mkQ [ex_h] [ex_ef] (tg ex_fs 12) (Some (tg ex_fs 10))) (mkW MA true FNone) 1000) = Some ValueErr.
+Proof. vm_compute. auto. Qed.
